@@ -253,7 +253,44 @@ def cosim_speed(rp, tr: tracer.Tracer, rng: random.Random) -> Any:
     return rp._replace(s=sim2)
 
 
-COSIM = {"throttle": cosim_throttle, "move": cosim_move, "membership": cosim_membership, "speed": cosim_speed}
+def cosim_unknown(rp, tr: tracer.Tracer, rng: random.Random) -> Any:
+    """a co-simulation user pushes a batch of stations (or bases) through modify_entities_safe in which one id is NOT in
+    the simulation: "modify" of something that does not exist must be refused (it cannot be indexed) - whatever the call
+    returns is what the user carries on with"""
+    from dataclasses import replace
+
+    from returns.result import Failure
+
+    from nrel.hive.runner import runner_payload_ops
+
+    sim = rp.s
+    if rng.random() < 0.7 and sim.stations:
+        pool = [sim.stations[k] for k in sorted(sim.stations.keys())]
+    elif sim.bases:
+        pool = [sim.bases[k] for k in sorted(sim.bases.keys())]
+    else:
+        return rp
+    ghost = replace(rng.choice(pool), id=f"ghost{rng.randrange(100)}")
+    batch = tuple(pool[: rng.randint(0, 2)]) + (ghost,)
+    try:
+        res = runner_payload_ops.modify_entities_safe(rp, batch)
+    except Exception:
+        return rp
+    if isinstance(res, Failure):
+        return rp
+    rp2 = res.unwrap()
+    line = {"ev": "cosim", "what": "modify_entities_safe(batch with an unknown id)", "entity": ghost.id, "d": tr.proj.advance(rp2.s, rp2.e), "rep": []}
+    if tr.with_index:
+        line["idx"] = index_snapshot_of(rp2.s)
+    tr.write(line)
+    return rp2
+
+
+def index_snapshot_of(sim):
+    return tracer.index_snapshot(sim)
+
+
+COSIM = {"unknown": cosim_unknown, "throttle": cosim_throttle, "move": cosim_move, "membership": cosim_membership, "speed": cosim_speed}
 
 
 def run_adv(seed: int, work: Path, trace_path: Path, *, steps: int = 40, mix: Optional[str] = None,
